@@ -202,11 +202,12 @@ def bytesLt : List UInt8 → List UInt8 → Bool
 def less (a b : Utxo) : Bool :=
   if a.value == b.value then bytesLt a.hash b.hash else a.value < b.value
 
-/-- `sort.Sort(sort.Reverse(utxos))`: insertion sort by the reversed order (`sort.Sort` is not stable; on inputs
-    whose (value, hash) pairs are pairwise different every correct sort returns this list). -/
+/-- `sort.Sort(sort.Reverse(utxos))`: stable insertion sort by the reversed order. `sort.Sort` is this very
+    algorithm for fewer than 12 elements and an unstable pdqsort above; on inputs whose (value, hash) pairs are
+    pairwise different every correct sort returns this list. -/
 def insertDesc (u : Utxo) : List Utxo → List Utxo
   | [] => [u]
-  | v :: r => if less v u then u :: v :: r else v :: insertDesc u r
+  | v :: r => if less u v then v :: insertDesc u r else u :: v :: r
 
 def sortDesc : List Utxo → List Utxo
   | [] => []
